@@ -144,6 +144,7 @@ func applyRecords(p interface{}, typ string, rb *Node) {
 			items[i] = o.(pack.Pack)
 		}
 		p.SetRecords(items)
+		rb.RecPlain = len(p.Records)
 		if mode == "gzip" {
 			// what logsink/zip's sender does before sending: gzip (+ status flag, a plain field)
 			z, err := compressutil.DoZip(p.Records)
@@ -157,6 +158,7 @@ func applyRecords(p interface{}, typ string, rb *Node) {
 		for _, it := range objs {
 			pack.WritePack(o, it.(pack.Pack))
 		}
+		rb.RecPlain = len(o.ToByteArray())
 		p.SetRecords(o.ToByteArray(), rb.RecMin)
 	default:
 		panic("applyRecords: no setter for " + typ)
@@ -187,6 +189,7 @@ func deriveRecords(typ string, n *Node, rb *Node) {
 	x := extractObj(typ, tmp)
 	out := x.L[iRec]
 	out.Recs, out.RecMode, out.RecVer, out.RecMin = rb.Recs, rb.RecMode, rb.RecVer, rb.RecMin
+	out.RecPlain, out.RecClass = rb.RecPlain, rb.RecClass
 	if out.Recs == nil {
 		out.Recs = []*Node{}
 	}
@@ -233,15 +236,24 @@ func genZipRecords(g *genCtx, typ string, n *Node) {
 	for i := range recs {
 		recs[i] = genInner(g, typ)
 	}
+	// the payload's redundancy class (redundancy.go): only the outermost container
+	class := "ordinary"
+	if g.depth == 1 {
+		recs, class = drawRedundancy(g, typ, recs)
+	}
 	g.depth--
-	rb := &Node{K: kBytes, Recs: recs, RecMode: "plain"}
+	rb := &Node{K: kBytes, Recs: recs, RecMode: "plain", RecClass: class}
+	compress := class != "ordinary" && r.Intn(6) != 0 // the classes are about the compressed form
 	switch typ {
 	case "ZipPack":
-		if r.Bool() {
+		if compress || r.Bool() {
 			rb.RecMode = "gzip"
 		}
 	case "LogSinkZipPack":
 		rb.RecMin = []int{0, 100, 1 << 30}[r.Intn(3)]
+		if compress {
+			rb.RecMin = []int{0, 100}[r.Intn(2)]
+		}
 	}
 	deriveRecords(typ, n, rb)
 }
